@@ -112,13 +112,19 @@ theorem parseUnsigned_okNum (v : Bytes) (h : Battalion.Spec.okNum v = true) :
   simp only [Battalion.Spec.okNum, Bool.and_eq_true, Bool.not_eq_true', decide_eq_true_eq] at h
   obtain ⟨⟨hne, hall⟩, hlt⟩ := h
   have hd : digitsVal v = Battalion.Spec.decimal v := rfl
-  unfold parseUnsigned
-  simp only []
-  split
-  · rename_i r'
-    simp only [List.all_cons, Bool.and_eq_true] at hall
-    exact absurd hall.1 (by decide)
-  · simp [hne, hall, hd, hlt]
+  cases v with
+  | nil => simp at hne
+  | cons b r =>
+    have hb : b ≠ 43 := digit_ne_plus b (by simp only [List.all_cons, Bool.and_eq_true] at hall; exact hall.1)
+    have hsp : stripPlus (b :: r) = b :: r := by
+      unfold stripPlus
+      split
+      · rename_i r' heq
+        injection heq with h1 _
+        exact absurd h1 hb
+      · rfl
+    unfold parseUnsigned
+    simp [hsp, hall, hd, hlt]
 
 /-- apply a setter when the value is there (kept folded so that terms stay small) -/
 def optSet {β : Type} (set : ServerInfo → β → ServerInfo) (i : ServerInfo) : Option β → ServerInfo
@@ -193,7 +199,7 @@ theorem get_eq_rule (rs : Rules) (name : String) : get rs (asciiBytes name) = Ba
 /-- overriding what a Valve client is entitled to (engine app 489940, default gathering) and converting it
 yields what the user of the Battalion 1944 query is entitled to -/
 theorem overrides_expected (cfg : Config) (st : State) (h : Battalion.Spec.wf cfg st = true) :
-    (Valve.Spec.expected (Battalion.Spec.batConfig cfg) st >>= applyOverrides >>= fun r => pure (gameResponseOf r))
+    (Valve.Spec.expected (Battalion.Spec.batConfig cfg) st >>= applyOverrides >>= fun r => pure (Games.gameView r))
       = Battalion.Spec.expected st := by
   simp only [Battalion.Spec.wf, Bool.and_eq_true] at h
   obtain ⟨⟨_, h1⟩, h2⟩ := h
@@ -203,7 +209,7 @@ theorem overrides_expected (cfg : Config) (st : State) (h : Battalion.Spec.wf cf
   · have hov := overrides_eq st.info st.rules h1 h2
     have hao : applyOverrides ⟨st.info, some st.players, some st.rules⟩
         = (overrides (st.info, st.rules) >>= fun x => pure ⟨x.1, some st.players, some x.2⟩) := rfl
-    simp only [happ, expectedRules, Engine.new, gameResponseOf]
+    simp only [happ, expectedRules, Engine.new, Games.gameView]
     simp [bind, Res.bind, happ, hao, hov, kMaxPlayers, kPlayerCount, kHasPassword, kName, kGamemode, get_eq_rule]
   · have hne : (489940 == st.info.appid) = false := by
       simp only [beq_eq_false_iff_ne, ne_eq]; exact fun h => happ h.symm
